@@ -37,6 +37,7 @@ PROPS = {
         "gen": ["EncTags.lean", "EncBuiltins.lean", "EncDispatch.lean"],
         "streams": ["dec"],
         "timeout": 3000,
+        "thorough_seeds": 2,   # 3 seeds took 21 min on a loaded machine (limit 20)
         "required_theorems": ["decode_no_panic", "decodeObject_no_panic", "decode_no_panic_versions", "decode_alloc",
                               "decodeObject_alloc", "decode_alloc_partial", "C18_alloc_full_false", "dispatch_shape", "decode_never_out_of_fuel", "liftConv_total", "decode_no_panic_lifted"],
         "trusted": [
